@@ -200,6 +200,10 @@ pub fn worker(id: &str, seed: u64, start: u64, step: u64, end: u64) -> i32 {
     let mut run = start;
     let mut since_progress = 0u64;
     let verbose = std::env::var("VERIF_VERBOSE").is_ok();
+    if let Some(cpu) = std::env::var("VERIF_CPU_LIMIT_S").ok().and_then(|s| s.parse::<u64>().ok()) {
+        let lim = libc::rlimit { rlim_cur: cpu, rlim_max: cpu + 5 };
+        unsafe { libc::setrlimit(libc::RLIMIT_CPU, &lim) };
+    }
     // wall-clock watchdog (outside the simulation): a run that does not
     // finish within the limit is reported as a hang and the process leaves
     let limit_s: u64 = std::env::var("VERIF_HANG_S").ok().and_then(|s| s.parse().ok()).unwrap_or(if def.id == "C05" { 90 } else { 30 });
@@ -848,7 +852,11 @@ pub fn check_cmd(id: &str, tier: &str, seed: u64) -> i32 {
         let t1 = Instant::now();
         let st = Command::new(self_exe())
             .args(["worker", def.id, &seed.to_string(), &run.to_string(), "1", &(run + 1).to_string()])
-            .env("VERIF_HANG_S", "60")
+            // judged by processor time, not by the wall clock, so that a loaded machine cannot turn a slow run
+            // into a "hang": a spinning run is stopped after 120 s of CPU time (RLIMIT_CPU in the worker), a
+            // blocked one after 10 minutes of wall time
+            .env("VERIF_HANG_S", "600")
+            .env("VERIF_CPU_LIMIT_S", "120")
             .stdout(Stdio::null())
             .stderr(Stdio::null())
             .status();
@@ -860,7 +868,7 @@ pub fn check_cmd(id: &str, tier: &str, seed: u64) -> i32 {
         let o_cfg = cfg_of(&def, run);
         let class = format!("hang:{}", def.configs[o_cfg]);
         t.violations.entry(class.clone()).or_insert(json!({"run": run, "cfg": o_cfg, "oracle": "no-hang", "class": class,
-            "msg": format!("run {} did not finish within the wall-clock watchdog limit (blocked or spinning)", run),
+            "msg": format!("run {} does not finish: re-run alone it used 120 s of processor time or stayed blocked for 10 minutes", run),
             "abort": true, "seed": seed}));
     }
     let viols: Vec<Value> = t.violations.values().cloned().collect();
